@@ -125,7 +125,8 @@ def theorem_names(module_file):
             ns.pop()
         m = re.match(r"\s*(?:@\[[^\]]*\]\s*)?theorem\s+([^\s:({\[]+)", line)
         if m:
-            names.append(".".join(ns + [m.group(1)]))
+            nm = m.group(1)
+            names.append(nm[len("_root_."):] if nm.startswith("_root_.") else ".".join(ns + [nm]))
     return names
 
 
